@@ -129,7 +129,10 @@ theorem address_typed (s : Scheme) (id : Bytes) (hid : id.length = idLen) :
   refine ⟨rfl, ?_, rfl⟩
   simp [address, hid]; decide
 
-/-- addresses determine scheme and key hash: no address is shared between two schemes, or
+/-- NOTE: this is injectivity of the *assembly* `typeID :: id` only. That `Actor()` really is
+`CreateAddress(typeID, ToID(pk))` and that `Sponsor() = Actor()` is checked by the oracle on
+every decoded auth, not proved (the Go methods are not modelled beyond `address`).
+addresses determine scheme and key hash: no address is shared between two schemes, or
 between two different key hashes of one scheme. -/
 theorem address_injective (s s' : Scheme) (id id' : Bytes) (h : address s id = address s' id') :
     s = s' ∧ id = id' := by
@@ -231,6 +234,54 @@ theorem ed_sig_unique (sig sig' : Bytes) (h : edRangeOK sig = true) (h' : edRang
 theorem verify_implies_range (s : Scheme) (sig : Bytes) (g : Bool) (h : verify s sig g = true) :
     rangeOK s sig = true ∧ g = true := by
   simpa [verify] using h
+
+/-! ### what is proved about non-malleability, and what is not
+
+Full statement of the property (NOT provable in this model — kept visible):
+
+    theorem non_malleability : ∀ scheme msg pk sig sig',
+      Verify scheme msg pk sig → Verify scheme msg pk sig' → sig = sig'
+    (and the same for alternative public-key encodings with the same address)
+
+It needs facts about the curves and hashes (the group equation is the parameter `groupOK`):
+point re-encodings, torsion components and unforgeability are outside the model. The part
+that hypersdk's own code decides is proved: -/
+
+/-- **non_malleability_partial**: (1) an auth decodes from exactly one byte string;
+(2) ed25519: two accepted signatures that carry the same `R` *bytes* and satisfy the same group
+equation (scalars congruent mod ℓ) are byte-identical; (3) P-256: of `(r, s)` and `(r, n − s)`
+at most one is accepted, whatever the group equation says.
+Missing (oracle-searched only): alternative *point* encodings of `R` / `A` (ZIP-215 accepts
+non-canonical and small-order points — see `non_malleability_counterexample`), BLS point
+encodings (blst), and unforgeability. -/
+theorem non_malleability_partial :
+    (∀ (G : Group) (s : Scheme) (b b' : Bytes) (a : Auth),
+        unmarshal G s b = .ok a → unmarshal G s b' = .ok a → b = b') ∧
+    (∀ (sig sig' : Bytes) (g g' : Bool), verify .ed25519 sig g = true → verify .ed25519 sig' g' = true →
+        sig.take 32 = sig'.take 32 → leNat (sig.drop 32) % ell = leNat (sig'.drop 32) % ell → sig = sig') ∧
+    (∀ (sig sig' : Bytes) (g g' : Bool), 0 < beNat (sig.drop 32) → beNat (sig.drop 32) < p256N →
+        beNat (sig'.drop 32) = p256N - beNat (sig.drop 32) →
+        ¬ (verify .secp256r1 sig g = true ∧ verify .secp256r1 sig' g' = true)) := by
+  refine ⟨unmarshal_injective, ?_, ?_⟩
+  · intro sig sig' g g' h h' hR hs
+    exact ed_sig_unique sig sig' (verify_implies_range _ _ _ h).1 (verify_implies_range _ _ _ h').1 hR hs
+  · intro sig sig' g g' h0 hn hneg
+    exact verify_low_s sig sig' g g' h0 hn hneg
+
+/-- `R` = the identity `(0,1)`, `s = 0` -/
+def torsionSigA : Bytes := (1 :: List.replicate 31 0) ++ List.replicate 32 0
+/-- `R` = the order-2 point `(0,−1)`, `s = 0` -/
+def torsionSigB : Bytes := (236 :: List.replicate 30 255 ++ [127]) ++ List.replicate 32 0
+
+/-- **non_malleability_counterexample** (known finding
+`malleable-signature-ed25519-small-order-key`): the range rules cannot tell apart two signatures
+with the same scalar and different `R` bytes. For a small-order public key the real group
+equation ([8]([s]B − [k]A − R) = 0) holds for both (the harness re-demonstrates it on
+ed25519consensus on every run), so both verify for the same message and key. -/
+theorem non_malleability_counterexample :
+    torsionSigA ≠ torsionSigB ∧ torsionSigA.drop 32 = torsionSigB.drop 32 ∧
+      verify .ed25519 torsionSigA true = true ∧ verify .ed25519 torsionSigB true = true := by
+  decide
 
 /-! ### non-vacuity -/
 
